@@ -120,10 +120,16 @@ Build(d, f, fc0) ==
       W == Final(r6.W, f)
   IN [watch |-> W, fc |-> r6.fc,
       hits |-> r1.hit \cup r2.hit \cup r3.hit \cup r5.hit \cup r6.hit,
-      res |-> [entry |-> r1.c, foo |-> r2.c, wf |-> r3.c,
-               wd |-> IF d["wd"] = "dir" THEN Listing(f, "wd") ELSE {"<nodir>"},
-               pages |-> IF d["pages"] = "dir" THEN <<"dir", r5.c>> ELSE <<"nodir", 0>>,
-               parts |-> IF d["parts"] = "dir" THEN <<"dir", r6.c>> ELSE <<"nodir", 0>>]]
+      \* a glob whose directory is missing (or is a file) is an error ("Could not resolve import(...)"):
+      \* the build fails and only its diagnostics remain observable; a directory without a
+      \* matching file is a warning
+      res |-> IF d["pages"] = "dir" /\ d["parts"] = "dir"
+              THEN [entry |-> r1.c, foo |-> r2.c, wf |-> r3.c,
+                    wd |-> IF d["wd"] = "dir" THEN Listing(f, "wd") ELSE {"<nodir>"},
+                    pages |-> <<"dir", r5.c>>, parts |-> <<"dir", r6.c>>]
+              ELSE [entry |-> 0, foo |-> 0, wf |-> 0, wd |-> {},
+                    pages |-> <<IF d["pages"] # "dir" THEN "nodir" ELSE IF r5.c = 0 THEN "warn" ELSE "dir", 0>>,
+                    parts |-> <<IF d["parts"] # "dir" THEN "nodir" ELSE IF r6.c = 0 THEN "warn" ELSE "dir", 0>>]]
 
 Fresh(d, f) == Build(d, f, EmptyFsc).res
 
